@@ -960,23 +960,34 @@ class C07(Check):
         return True
 
     def shrink_candidates(self, case):
+        """few candidates per round (every candidate is a full run): single-element removals for short lists, halving for
+        long ones (bursts), at most a dozen per round"""
+        def cuts(n):
+            if n <= 6: return [(j, j + 1) for j in range(n)]
+            h = n // 2
+            return [(0, h), (h, n), (0, max(1, n // 4)), (n - 1, n)]
+        out = []
         if case["kind"] == "threads":
             for i, p in enumerate(case["progs"]):
-                for j in range(len(p)):
-                    q = p[:j] + p[j + 1:]
+                for a, b in cuts(len(p)):
+                    q = p[:a] + p[b:]
                     d = 0; ok = True
                     for op in q:
                         d += 1 if op["o"] == "syncEnter" else -1 if op["o"] in ("syncExit", "syncExitExc") else 0
                         if d < 0: ok = False
                     if ok and d == 0:
-                        c = json.loads(json.dumps(case)); c["progs"][i] = q; yield c
+                        c = json.loads(json.dumps(case)); c["progs"][i] = q; out.append(c)
             if case["sched"]["type"] == "preempt":
                 for j in range(len(case["sched"]["points"])):
-                    c = json.loads(json.dumps(case)); del c["sched"]["points"][j]; yield c
+                    c = json.loads(json.dumps(case)); del c["sched"]["points"][j]; out.append(c)
         elif case["kind"] == "lock":
             for i, p in enumerate(case["progs"]):
-                for j in range(len(p)):
-                    c = json.loads(json.dumps(case)); del c["progs"][i][j]; yield c
+                for a, b in cuts(len(p)):
+                    c = json.loads(json.dumps(case)); del c["progs"][i][a:b]; out.append(c)
+        elif case["kind"] == "pinger":
+            for a, b in cuts(len(case["ops"])):
+                c = json.loads(json.dumps(case)); del c["ops"][a:b]; out.append(c)
+        return out[:12]
 
     def site_report(self):
         """every statement the translator lists, by what it is in the model: the evidence names the unmodelled ones"""
